@@ -85,7 +85,12 @@ def envelope_constructions(run, f, sp, rule="O1.2"):
             cfg = cfg_of(b)
             run.require(not cfg.in_cycle(s2.bb), rule, "send-not-in-loop:%s" % fnname, "the mailbox send of %s is inside a loop (could enqueue twice)" % fnname, "send call executed at most once", loc=s2.loc)
             rets = cfg.exits(("return",))
-            run.require(rets and all(cfg.dominates(s2.bb, r) for r in rets), rule, "send-dominates-return:%s" % fnname,
+            # every return is preceded by the send - or, in a function that dispatches, by the call of another delivery
+            # function of this crate (one that builds an envelope itself, or the timeout primitive of the blocking API)
+            import anchors
+            deliver = {s3.root for s3, _, _ in sp.envelopes} | {r_.get("wt") for r_ in anchors.blocking_roles(f).values()}
+            points = {s2.bb} | {k.idx for k in live_calls(b) if callee(k.term) in deliver and callee(k.term) != (b.root or b.defn)}
+            run.require(rets and not any(r in cfg.reachable_from(0, avoid=points) for r in rets) and 0 not in rets, rule, "send-dominates-return:%s" % fnname,
                         "%s can return without attempting the send" % fnname, "every return is preceded by the send", loc=s2.loc)
             run.sample({"rule": rule, "config": run.cur_config, "fn": fnname, "envelope": site.loc, "send": "%s @ %s" % (m, s2.loc)})
     need = {"tell", "ask"}
